@@ -24,6 +24,7 @@ import (
 	"github.com/postalsys/muti-metroo/internal/identity"
 	"github.com/postalsys/muti-metroo/internal/protocol"
 	"github.com/postalsys/muti-metroo/internal/verifhook"
+	"golang.org/x/net/dns/dnsmessage"
 )
 
 // Engine c19: a real Agent built by agent.New; dynamic routes through Agent.ManageRoute; opens
@@ -116,9 +117,65 @@ func c19DynList() string {
 var (
 	c19W        *c19World
 	c19Once     sync.Once
-	c19Port     uint16
+	c19Port     uint16 // every loopback address answers on this port
+	c19PortSel  uint16 // only c19SelAddrs answer on this one (127.0.0.1 and the 127.1/16 addresses refuse)
 	c19Accepted = make(chan net.IP, 64)
+	c19DNSAddr  string
+	c19DNSMu    sync.Mutex
+	c19DNSTable = map[string][]net.IP{} // lower-case FQDN -> records, in answer order
 )
+
+var c19SelAddrs = []string{"127.0.0.2", "127.9.9.9", "127.77.0.1", "::1"}
+
+// c19DNS is a tiny authoritative DNS server on loopback: A / AAAA records from c19DNSTable in table
+// order, NXDOMAIN for unknown names. The agent's exit resolver is pointed at it (exit.dns.servers).
+func c19DNS(pc net.PacketConn) {
+	buf := make([]byte, 1500)
+	for {
+		n, from, err := pc.ReadFrom(buf)
+		if err != nil {
+			return
+		}
+		var p dnsmessage.Parser
+		hdr, err := p.Start(buf[:n])
+		if err != nil {
+			continue
+		}
+		q, err := p.Question()
+		if err != nil {
+			continue
+		}
+		c19DNSMu.Lock()
+		recs, known := c19DNSTable[strings.ToLower(q.Name.String())]
+		c19DNSMu.Unlock()
+		rh := dnsmessage.Header{ID: hdr.ID, Response: true, Authoritative: true, RecursionAvailable: true}
+		if !known {
+			rh.RCode = dnsmessage.RCodeNameError
+		}
+		b := dnsmessage.NewBuilder(nil, rh)
+		b.EnableCompression()
+		b.StartQuestions()
+		b.Question(q)
+		b.StartAnswers()
+		for _, ip := range recs {
+			h := dnsmessage.ResourceHeader{Name: q.Name, Class: dnsmessage.ClassINET, TTL: 60}
+			if v4 := ip.To4(); v4 != nil && q.Type == dnsmessage.TypeA {
+				var a [4]byte
+				copy(a[:], v4)
+				h.Type = dnsmessage.TypeA
+				b.AResource(h, dnsmessage.AResource{A: a})
+			} else if v4 == nil && q.Type == dnsmessage.TypeAAAA {
+				var a [16]byte
+				copy(a[:], ip.To16())
+				h.Type = dnsmessage.TypeAAAA
+				b.AAAAResource(h, dnsmessage.AAAAResource{AAAA: a})
+			}
+		}
+		if out, err := b.Finish(); err == nil {
+			pc.WriteTo(out, from)
+		}
+	}
+}
 
 // c19Listen opens the loopback listeners every permitted open is dialled to: one on 0.0.0.0 (all
 // of 127.0.0.0/8) and, when available, one on [::1], on the same port.
@@ -141,6 +198,47 @@ func c19Listen() {
 		if l6, err := net.Listen("tcp6", fmt.Sprintf("[::1]:%d", c19Port)); err == nil {
 			go serve(l6)
 		}
+		// the selective port: free on 127.0.0.1, bound on the c19SelAddrs only
+		for attempt := 0; attempt < 50 && c19PortSel == 0; attempt++ {
+			first, err := net.Listen("tcp4", "127.0.0.2:0")
+			must(err)
+			p := first.Addr().(*net.TCPAddr).Port
+			if c, err := net.DialTimeout("tcp4", fmt.Sprintf("127.0.0.1:%d", p), 300*time.Millisecond); err == nil {
+				c.Close()
+				first.Close()
+				continue
+			}
+			ls := []net.Listener{first}
+			ok := true
+			for _, a := range c19SelAddrs[1:] {
+				l, err := net.Listen("tcp", net.JoinHostPort(a, strconv.Itoa(p)))
+				if err != nil {
+					if a == "::1" {
+						continue // no IPv6 loopback here: its cases end in dialfail, which the model admits
+					}
+					ok = false
+					break
+				}
+				ls = append(ls, l)
+			}
+			if !ok {
+				for _, l := range ls {
+					l.Close()
+				}
+				continue
+			}
+			for _, l := range ls {
+				go serve(l)
+			}
+			c19PortSel = uint16(p)
+		}
+		if c19PortSel == 0 {
+			panic("no selective port")
+		}
+		pc, err := net.ListenPacket("udp", "127.0.0.1:0")
+		must(err)
+		c19DNSAddr = pc.LocalAddr().String()
+		go c19DNS(pc)
 	})
 }
 
@@ -189,8 +287,8 @@ func c19Reset(f []string) string {
 	cfg.Agent.DataDir = dir
 	cfg.Agent.LogLevel = "error"
 	cfg.Exit.Enabled = f[1] == "1"
-	cfg.Exit.DNS.Timeout = 150 * time.Millisecond
-	cfg.Exit.DNS.Servers = []string{"127.0.0.1:9"} // nothing answers: unknown names fail fast
+	cfg.Exit.DNS.Timeout = 500 * time.Millisecond
+	cfg.Exit.DNS.Servers = []string{c19DNSAddr} // the harness's DNS server: NXDOMAIN for unknown names
 	if f[2] != "-" {
 		for _, n := range strings.Split(f[2], ",") {
 			cfg.Exit.Routes = append(cfg.Exit.Routes, c19CIDR(n))
@@ -235,6 +333,7 @@ func c19Open(tok string) string {
 	h.SetWriter(c19W.w)
 	p := strings.Split(tok, ":")
 	var dest string
+	port := c19Port
 	switch p[0] {
 	case "i":
 		b := unhexTok(p[1])
@@ -244,6 +343,21 @@ func c19Open(tok string) string {
 			var a [16]byte
 			copy(a[:], b)
 			dest = netip.AddrFrom16(a).String()
+		}
+	case "m": // m:<name>:<addr,addr,...>:<p|q> — resolved for real, through the harness's DNS server
+		dest = string(unhexTok(p[1]))
+		var recs []net.IP
+		if p[2] != "-" {
+			for _, a := range strings.Split(p[2], ",") {
+				recs = append(recs, net.IP(unhexTok(a)))
+			}
+		}
+		c19DNSMu.Lock()
+		c19DNSTable[strings.ToLower(dest)+"."] = recs
+		c19DNSMu.Unlock()
+		h.VerifC19Forget(dest)
+		if p[3] == "q" {
+			port = c19PortSel
 		}
 	case "n":
 		dest = string(unhexTok(p[1]))
@@ -258,13 +372,13 @@ func c19Open(tok string) string {
 	}
 	c19W.stream++
 	sid := c19W.stream
-	ctx, cancel := context.WithTimeout(context.Background(), 250*time.Millisecond)
+	ctx, cancel := context.WithTimeout(context.Background(), 400*time.Millisecond)
 	defer cancel()
 	var remote identity.AgentID
 	remote[0] = 9
 	var eph [crypto.KeySize]byte
 	eph[0] = 9 // any non-degenerate X25519 point
-	if err := h.HandleStreamOpen(ctx, sid, sid, remote, dest, c19Port, eph); err != nil {
+	if err := h.HandleStreamOpen(ctx, sid, sid, remote, dest, port, eph); err != nil {
 		return "err open"
 	}
 	select {
@@ -619,6 +733,40 @@ func c19Gen(w *bufio.Writer, seed int64, tier string) {
 		if r.chance(50) { // life goes on: re-add and remove normally
 			fmt.Fprintf(w, "add %s 7\nopen i:7f010203\nremove %s\nstate\nopen i:7f010203\n", x, x)
 		}
+	}
+	// multi-address names, resolved for real: only the address that was CHECKED may be dialled
+	multiCase := func(i int) {
+		l1, l2, r9, l77, v6lo := "7f000001", "7f000002", "7f090909", "7f4d0001", v6(0, 0, 0, 0, 0, 0, 0, 0, 0, 0, 0, 0, 0, 0, 0, 1)
+		in116 := "7f010203" // inside 127.1.0.0/16, nothing listens there on the selective port
+		nets := [][]string{{"7f000001/32"}, {"7f010000/16"}, {"7f000001/32", "7f010000/16"}, {"7f000002/32"}, {v6lo + "/128", "7f000001/32"}, {"-"}}[i%6]
+		pat := "-"
+		if i%4 == 3 {
+			pat = hx("*.ok.test")
+		}
+		fmt.Fprintf(w, "reset 1 %s %s\n", strings.Join(nets, ","), pat)
+		sets := [][]string{
+			{l1}, {l2}, {l1, l2}, {l2, l1}, {in116, r9}, {r9, in116}, {l1, l2, r9}, {in116, l2, l77},
+			{v6lo, l1}, {l1, v6lo}, {v6lo}, {v6lo, l2}, {l2, v6lo}, {},
+		}
+		for k, set := range sets {
+			name := fmt.Sprintf("h%d-%d.multi.test", i, k)
+			if pat != "-" && k%3 == 0 {
+				name = fmt.Sprintf("h%d-%d.ok.test", i, k)
+			}
+			rs := "-"
+			if len(set) > 0 {
+				rs = strings.Join(set, ",")
+			}
+			fmt.Fprintf(w, "open m:%s:%s:q\n", hx(name), rs)
+			if k%4 == 0 {
+				fmt.Fprintf(w, "open m:%s:%s:p\n", hx("p-"+name), rs)
+			}
+		}
+		// a dynamic route makes the second address permitted too, then not any more
+		fmt.Fprintf(w, "add 7f000002/32 1\nopen m:%s:%s,%s:q\nremove 7f000002/32\nopen m:%s:%s,%s:q\n", hx(fmt.Sprintf("dyn%d.multi.test", i)), l1, l2, hx(fmt.Sprintf("dyn%db.multi.test", i)), l1, l2)
+	}
+	for i := 0; i < 6; i++ {
+		multiCase(i)
 	}
 	// concurrency cases: two ManageRoute calls on one network in a fixed schedule, and k goroutines
 	// adding/removing the same network; afterwards the allow list must again be config + dynamic routes
